@@ -70,3 +70,18 @@ Proof.
   vm_compute. repeat split.
   repeat constructor; simpl; intros kv [<-|[<-|[<-|[]]]]; simpl; intuition discriminate.
 Qed.
+
+(* ... in the binary the injector is the first update callback of the targets manager (cmd/kvass/sidecar.go): whatever
+   assignment the manager takes up - from a request, acknowledged or not, or from its store - is what the generated file
+   lists, per job exactly the hashes of the targets assigned to that job (Model/SidecarCheck.v model_injected, compared
+   with the file the real injector wrote after every operation of the `sidecar` engine) *)
+From KV Require Import Base.AMap Model.Coordinator Model.Sidecar Model.SidecarCheck Proofs.SidecarProofs.
+Theorem C11_generated_file_lists_the_assignment : forall s j h,
+  job_has (model_injected s) j h <-> exists ts, In (j, ts) (sc_targets s) /\ In h (map t_hash ts).
+Proof. exact injected_spec. Qed.
+Print Assumptions C11_generated_file_lists_the_assignment.
+
+Theorem C11_generated_file_after_update : forall s req now ok j h,
+  job_has (model_injected (fst (do_update s req now ok))) j h <-> exists ts, In (j, ts) req /\ In h (map t_hash ts).
+Proof. exact injected_after_update. Qed.
+Print Assumptions C11_generated_file_after_update.
